@@ -378,6 +378,7 @@ pub fn property() -> Property {
         id: "C07",
         cases,
         clauses: &["incarnation-bounds", "restart-callbacks", "start-failure-on-restart-terminates", "state-carried-or-reset"],
+        full_rerun_check: true,
         assumptions: &[
             "handlers take no virtual time in the timer scenes, so a tick handled later than the start of the next incarnation must have fired after that start",
             "a restart request counts from the begin to the end of Addr::restart, or the instant Context::restart returned Ok",
